@@ -50,6 +50,13 @@ var c12Reqs = []c12Req{
 	{"e-deferred-grandchildren", `{ leafy { s i } a { name aOnly } b { bOnly name } }`, nil, map[string]string{"R@leafy.s": FThunkErr, "R@leafy.i": FThunkErr, "R@a.name": FThunkErr, "R@a.aOnly": FThunkPanic, "R@b.bOnly": FThunkErr, "R@b.name": FThunkErr}, "failing", nil},
 	{"v-dirvar-true", `query($s:Boolean!){ x1 @skip(if:$s) x2 ... @include(if:$s) { x3 } }`, map[string]interface{}{"s": true}, nil, "valid", nil},
 	{"v-dirvar-false", `query($s:Boolean!){ x1 @skip(if:$s) x2 ... @include(if:$s) { x3 } }`, map[string]interface{}{"s": false}, nil, "valid", nil},
+	// several undefined-variable / variable-position errors that sit in different
+	// named fragments of one operation (reported in the order the fragments are
+	// reached from the operation)
+	{"i-undefined-vars-in-fragments", `query Q { ...A ...B ...C ...D } fragment A on Query { echo(i:$u1) } fragment B on Query { echo2(i:$u2) ...E } fragment C on Query { x: echo(s:$u3) } fragment D on Query { y: echo2(s:$u4) } fragment E on Query { z: echo(i:$u5) }`, nil, nil, "invalid", nil},
+	{"i-var-positions-in-fragments", `query Q($s:String, $b:Boolean) { ...A ...B ...C ...D } fragment A on Query { echo(i:$s) } fragment B on Query { echo2(i:$s) x1 @skip(if:$b) } fragment C on Query { x: echo(i:$b) } fragment D on Query { y: echo2(l:$s) }`, nil, nil, "invalid", nil},
+	// equal-looking and different list / input-object literals of one type in one operation
+	{"v-lists-that-print-alike", `{ a: echo(f:{tags:["x y"]}) b: echo(f:{tags:["x","y"]}) c: echo2(f:{tags:["x","y"]}) d: echo(f:{tags:["x y"], min:1}) e: echo(f:{tags:["x", "y"], min:1}) }`, nil, nil, "valid", nil},
 	{"i-overlap-conflicts", `{ leafy { v: s w: i k: b z: f } leafy { v: i w: s z: id } a { n: name } a { n: id } }`, nil, nil, "invalid", nil},
 	{"i-overlap-nested", `{ b { nn { p: s q: i } } b { nn { p: i q: s r: f } } ...F } fragment F on Query { b { nn { q: f } } }`, nil, nil, "invalid", nil},
 	{"e-mutation-deferred", `mutation { s1(v:1) s2(v:2) m1(v:3) { id name bOnly } }`, nil, map[string]string{"R@s1": FThunkErr, "R@s2": FThunkErr, "R@m1.id": FThunk, "R@m1.name": FThunkErr, "R@m1.bOnly": FThunkErr}, "failing", nil},
@@ -131,7 +138,7 @@ func (p c12) Gen(seed uint64, enum int, tier string) json.RawMessage {
 		s.Variant = "history"
 		s.Req = enum % len(c12Reqs)
 		s.History = []int{enum / len(c12Reqs)}
-		s.Cache = []string{"", "plain", "plan"}[enum%3]
+		s.Cache = []string{"", "plain", "plan", "norm"}[enum%4]
 		return mustJSON(s)
 	}
 	if enum >= 0 {
@@ -160,7 +167,7 @@ func (p c12) Gen(seed uint64, enum int, tier string) json.RawMessage {
 	for n := r.Intn(11); n > 0; n-- {
 		s.History = append(s.History, r.Intn(len(c12Reqs)))
 	}
-	s.Cache = []string{"", "plain", "plan"}[r.Intn(3)]
+	s.Cache = []string{"", "plain", "plan", "norm"}[r.Intn(4)]
 	// requests with the same text and other variables are likely neighbours in a
 	// real history, and they share cached plans
 	var siblings []int
@@ -283,12 +290,12 @@ func c12Exec(w *World, rq c12Req, cache *graphql.PlanCache, plans map[string]*gr
 		how = ""
 	}
 	switch how {
-	case "plain":
+	case "plain", "norm":
 		pr := cache.Get(&w.Schema, rq.Query, "")
 		if len(pr.Errors) > 0 {
 			return MarshalResult(&graphql.Result{Errors: pr.Errors})
 		}
-		return MarshalResult(graphql.ExecutePlan(pr.Plan, graphql.ExecuteParams{Schema: w.Schema, Args: rq.Vars, Context: ctx}))
+		return MarshalResult(graphql.ExecutePlan(pr.Plan, graphql.ExecuteParams{Schema: w.Schema, Args: mergeArgs(rq.Vars, pr.SynthArgs), Context: ctx}))
 	case "plan":
 		pl, ok := plans[rq.Query]
 		if !ok {
@@ -414,6 +421,9 @@ func (c12) Run(t TestingT, scn json.RawMessage, tape *Tape) *Outcome {
 	if sc.Cache == "plain" {
 		cache = graphql.NewPlanCache(graphql.PlanCacheOptions{MaxEntries: 3})
 	}
+	if sc.Cache == "norm" {
+		cache = graphql.NewPlanCache(graphql.PlanCacheOptions{MaxEntries: 3, Normalize: true})
+	}
 	for _, h := range sc.History {
 		c12Exec(w, c12Reqs[h], cache, plans, sc.Cache)
 	}
@@ -464,6 +474,13 @@ func (c12) Run(t TestingT, scn json.RawMessage, tape *Tape) *Outcome {
 		o.Refs = map[string]string{refName: fmt.Sprintf("%016x", hr.Sum64())}
 	}
 	for i, g := range got {
+		if g != ref && sc.Cache == "norm" && stripLocations(g) == stripLocations(ref) {
+			// the recorded finding F-C06-5 seen from this property: under the
+			// normalising cache the error locations are those of the request
+			// that created the shared plan, i.e. they depend on the history
+			o.Violate("C12/error-locations-of-other-request", "request %q after a history through the normalising cache reports the error locations of another request's text\n  %s", rq.Query, firstDiff(g, ref))
+			break
+		}
 		if g != ref {
 			o.Violate("C12/differs@"+rq.Name, "request %q (%s, variant %s, execution %d) differs from its reference response (fresh schema, sorted order, no history)\n  %s",
 				rq.Query, rq.Kind, sc.Variant, i, firstDiff(g, ref))
